@@ -382,6 +382,14 @@ func (x *exec) staticTypeOfSpecLval(fs *spec.FuncSpec, fn *ssa.Function, c *ssa.
 		case *spec.Ident:
 			t, ok := names[e.Name]
 			return t, ok
+		case *spec.Call:
+			if id, ok := e.Fun.(*spec.Ident); ok && id.Name == "unbox" && len(e.Args) == 2 {
+				if te, ok := e.Args[1].(*spec.TypeExpr); ok {
+					env := x.newEnv(&State{}, fs)
+					return env.resolveType(te), true
+				}
+			}
+			return nil, false
 		case *spec.Sel:
 			bt, ok := typeOf(e.X)
 			if !ok {
@@ -398,6 +406,8 @@ func (x *exec) staticTypeOfSpecLval(fs *spec.FuncSpec, fn *ssa.Function, c *ssa.
 		return nil, false
 	}
 	switch m := m.(type) {
+	case *spec.Cond:
+		return x.staticTypeOfSpecLval(fs, fn, c, m.A)
 	case *spec.Sel:
 		bt, ok := typeOf(m.X)
 		if !ok {
@@ -483,7 +493,7 @@ func (x *exec) loopEnter(st *State, fr *Frame, lp *loop) bool {
 		env = x.unitEnv(st, fr)
 		env.loop = lp
 		for i, cl := range ls.Invariants {
-			g := env.evalBool(cl.Expr)
+			g := env.evalGoal(cl.Expr)
 			e.obligation(st, "inv-entry", name+":"+clauseName(cl, i), cl.Tag, cl.Text, cl.Pos.String(), g)
 		}
 	}
@@ -574,7 +584,7 @@ func (x *exec) loopBack(st *State, fr *Frame, lp *loop) {
 		env := x.unitEnv(st, fr)
 		env.loop = lp
 		for i, cl := range ls.Invariants {
-			g := env.evalBool(cl.Expr)
+			g := env.evalGoal(cl.Expr)
 			e.obligation(st, "inv-keep", name+":"+clauseName(cl, i), cl.Tag, cl.Text, cl.Pos.String(), g)
 		}
 		if ls.Decreases != nil {
